@@ -30,7 +30,10 @@ Definition comp_eqb (a b : comp) : bool :=
   | _, _ => false
   end.
 
-Inductive kind : Type := Blocking | Tell.
+Inductive kind : Type :=
+| Blocking          (* waits for the reply with no bound *)
+| BlockingTimeout   (* waits, but gives up after a timeout (timeout= argument / except pykka.Timeout) *)
+| Tell.
 
 Record site : Type := mkSite {
   s_src : comp;      (* component whose thread executes the construct *)
@@ -41,8 +44,24 @@ Record site : Type := mkSite {
   s_what : string
 }.
 
+(* a wait-for edge for the purposes of ranking: bounded waits count too *)
 Definition site_blocking (s : site) : bool :=
-  match s_kind s with Blocking => true | Tell => false end.
+  match s_kind s with Blocking | BlockingTimeout => true | Tell => false end.
+
+Definition site_unbounded (s : site) : bool :=
+  match s_kind s with Blocking => true | _ => false end.
+
+(* the end-of-track callback: every waiting site of a GStreamer thread on the core must wait
+   without a bound (the caller may only resume once the core has served it), and there is one *)
+Definition is_callback_site (s : site) : bool :=
+  match s_src s, s_dst s with GstThread, Core => site_blocking s | _, _ => false end.
+
+Definition callback_unbounded_b (ss : list site) : bool :=
+  forallb (fun s => if is_callback_site s then site_unbounded s else true) ss
+  && existsb (fun s => is_callback_site s && site_unbounded s) ss.
+
+Definition bounded_callback_sites (ss : list site) : list site :=
+  filter (fun s => is_callback_site s && negb (site_unbounded s)) ss.
 
 (* The rank claimed for mopidy.  Main is the only thread that waits on frontends (when it
    stops them); nothing ever waits on Main or on a GStreamer thread. *)
